@@ -503,6 +503,15 @@ func (f *Frame) intrinsic(name string, callee *ssa.Function, args []Val, pos tok
 	switch name {
 	case "runtime.KeepAlive":
 		return unit, true
+	case "github.com/bytedance/sonic/internal/rt.Mem2Str":
+		// string header over the slice's memory: modelled as a snapshot of the bytes
+		c.note("rt.Mem2Str modelled as a snapshot of the slice contents (the aliasing string is assumed not to be read after the bytes change)")
+		hn, hs := c.heapNameArr(types.Typ[types.Uint8])
+		v := args[0]
+		arr := fmt.Sprintf("(select %s (sbase %s))", c.heap(f.st, hn, hs), v.S)
+		return Val{T: types.Typ[types.String], S: c.bind("mem2str", fmt.Sprintf("(mkstr %s (xoff %s) (xlen %s))", arr, v.S, v.S), "Str")}, true
+	case "github.com/bytedance/sonic/internal/rt.NoEscape":
+		return args[0], true
 	case "sync/atomic.LoadPointer", "sync/atomic.LoadUint64", "sync/atomic.LoadInt64", "sync/atomic.LoadUint32", "sync/atomic.LoadInt32", "sync/atomic.LoadUintptr":
 		c.note("sync/atomic operations modelled with sequentially consistent single-thread semantics")
 		p := f.ptrPath(args[0], pos, "atomic.Load")
